@@ -1,21 +1,21 @@
 CONSTANTS
  Hosts = {"up"}
  Up = "up"
- Ids = {"A"}
+ Ids = {"A", "B", "C"}
  N = 2
  RA = 50
- Kinds = {"ok", "ok206", "short0", "short206", "s500"}
+ Kinds = {"ok", "s500", "reset"}
  MaxFaults = 3
- MaxSeeks = 1
+ MaxSeeks = 0
  Conc = 2
  RelNR = TRUE
  FixLeak = TRUE
  PrioAsc = TRUE
  Rs = {3}
  Prios = {0}
- Meths = {"GET"}
+ Meths = {"GET", "PUT"}
  Waive <- WaiveNone
- Confs <- EqConfs
+ Confs <- NRConfs
 INIT GInit
 NEXT GNext
 INVARIANTS Emit
